@@ -20,6 +20,10 @@ import VM.Executor
                                                            = noncache) called once (VM.xRun); the answer carries `F <keys>`:
                                                            the ids the model says the file holds (n, n+1 = the DAG's parameters)
     O <inst> xrestart <slot> <k> <sel>^k <na> <value>^na   a fresh executor with from_cache = file <slot> called once
+    O <inst> xmk <xid> <k> <sel>^k                         an executor object is CREATED on the instance and kept (xid = 0,1,2,… in
+                                                           creation order); nothing runs                 -> <id> <opidx> NOOP
+    O <inst> xrun <xid> <na> <value>^na                    the kept executor object is called (VM.xRun on the instance AS IT IS NOW):
+                                                           -> <id> <opidx> REFUSED  if the object was used before, else like call
     E
     -> <id> <opidx> OK|FAIL E <entered…> R <value or -> per node
 -/
@@ -123,6 +127,7 @@ def main : IO Unit := do
       let res0 : Results Val := fun x => if x = n + 1 then some (.int 7) else none
       let mut insts : Array (Inst Val) := #[⟨dag, res0⟩]
       let mut files : Nat → Option (File Val) := fun _ => none
+      let mut xobjs : Array (Nat × XObj) := #[]
       i := i + 1 + n
       let mut idx := 0
       while i < lines.size && lines[i]! != "E" do
@@ -186,6 +191,25 @@ def main : IO Unit := do
             insts := insts.setIfInBounds inst.toNat! r.1.inst
             files := r.1.files
           | [] => IO.println s!"{sid} {idx} PARSE"
+        | "O" :: inst :: "xmk" :: _xid :: k :: r =>
+          let (sel, _) := takeNats k.toNat! r
+          xobjs := xobjs.push (inst.toNat!, XObj.fresh ⟨sel, fun _ => false, none, none⟩)
+          IO.println s!"{sid} {idx} NOOP"
+        | "O" :: _inst :: "xrun" :: xid :: r =>
+          let args := match r with
+            | na :: r2 => (match pVal.pVals na.toNat! r2 with | some (l, _) => l | none => [])
+            | [] => []
+          match xobjs[xid.toNat!]? with
+          | none => IO.println s!"{sid} {idx} PARSE"
+          | some (ix, o) =>
+            let it := insts.getD ix ⟨dag, res0⟩
+            let w : World Val := ⟨it, files⟩
+            let r := xRun w o args
+            if o.used then IO.println s!"{sid} {idx} REFUSED"
+            else IO.println (report sid idx n (xCfgOf it o.spec it.res args))
+            insts := insts.setIfInBounds ix r.1.inst
+            files := r.1.files
+            xobjs := xobjs.setIfInBounds xid.toNat! (ix, r.2.1)
         | "O" :: inst :: "xrestart" :: slot :: k :: r =>
           let (sel, r1) := takeNats k.toNat! r
           let args := match r1 with
